@@ -13,16 +13,17 @@ RULE = ("families of executions of ONE gen_params job, each member in its own pr
         "blocks/links inside the generated files permuted (definitions non-conflicting by construction); (listdir) the same "
         "files installed as a library directory and os.listdir answered in two seeded permutations; (relabel) the .json residue "
         "graph with node keys mapped by a random injection into 0..10^6, node/edge lists shuffled, edge endpoints swapped, "
-        "residue ids fixed; (history) the job after 1-8 other calls incl. failing ones in the same process. Oracle: all members "
+        "residue ids fixed; (seqfile) DNA / protein strands as line-wrapped .ig / .fasta files; (history) the job after 1-8 other calls incl. failing ones in the same process. Oracle: all members "
         "succeed or all fail with the same exception type; atom tables identical as text; per section the multiset of "
-        "(guard, tokens) identical; consecutive runs byte-identical below the header. non-trivial = the molecule has >= 1 "
+        "(guard, tokens) identical; comment header below the command line identical as a multiset of lines (citation keys in a "
+        "quarter of the generated force fields, an earlier -lib call in their histories); consecutive runs byte-identical below the header. non-trivial = the molecule has >= 1 "
         "inter-residue interaction and the family has >= 4 members; distinct = distinct family digests")
 ASSUMPTIONS = ["order of interaction lines is not compared (the property speaks of multisets)",
                "generated definitions never define the same interaction twice and never replace an attribute another link selects on"]
 REAL_VS_STUB = {"real": ["gen_params end to end incl. load_ff_library, parsers, MapToMolecule, ApplyLinks, ApplyModifications, writer"],
                 "stub": ["tqdm disabled", "sys.argv pinned", "os.listdir of the library directory answered by the harness",
                          "polyply DATA_PATH redirected to a scratch directory for generated libraries"]}
-PROBES = ["dim_hash", "dim_repeat", "dim_fileorder", "dim_listdir", "dim_relabel", "dim_history", "lib_family",
+PROBES = ["citation_keys_after_library_call", "citation_lines_in_header", "dim_seqfile", "dim_hash", "dim_repeat", "dim_fileorder", "dim_listdir", "dim_relabel", "dim_history", "lib_family",
           "history_with_failed_call", "protein_family_with_terminal_modifications", "dna_family_with_complementary_strand",
           "linktype_family", "replace_link_family", "multi_residue_block_family"]
 
@@ -61,6 +62,11 @@ def gen_job(verif_seed, tier, index):
             op = histgen.dna_op(g, rg, lib, ds, keys=keys, node_order=_perm(e, n),
                                 edge_order=_perm(e, ne), flip=[i for i in range(ne) if e.random() < 0.5])
             members.append({"dim": "relabel", "hashseed": e.choice(histgen.PALETTE), "ops": [op], "observe": 0})
+        for _ in range(2):
+            # the same strand as a line-wrapped .ig / .fasta sequence file (wrapping must not matter)
+            op = dict(base)
+            op["graph"] = histgen.dna_file_graph(e, rg)
+            members.append({"dim": "seqfile", "hashseed": e.choice(histgen.PALETTE), "ops": [op], "observe": 0})
         return {"index": index, "run_seed": seed, "members": members, "lib": True, "dna": True}
     if g.random() < 0.08:
         # protein over the shipped martini3 library with a json residue graph: terminal modifications are applied
@@ -77,6 +83,9 @@ def gen_job(verif_seed, tier, index):
         op = dict(base)
         op["graph"] = {"kind": "seq", "seq": ffgen.seq_list(rg)}
         members.append({"dim": "relabel", "hashseed": e.choice(histgen.PALETTE), "ops": [op], "observe": 0})
+        op = dict(base)
+        op["graph"] = histgen.protein_fasta_graph(e, rg)
+        members.append({"dim": "seqfile", "hashseed": e.choice(histgen.PALETTE), "ops": [op], "observe": 0})
         hist = _history(g, None, None)
         members.append({"dim": "history", "hashseed": e.choice(histgen.PALETTE), "ops": hist + [base], "observe": len(hist)})
         # earlier call in the process on ANOTHER peptide with explicit terminal modifications (-mods)
@@ -114,6 +123,8 @@ def gen_job(verif_seed, tier, index):
     else:
         ff = ffgen.gen_ff(g, uniform_nrexcl=g.random() < 0.6, removal_p=0.12)
         rg = ffgen.gen_resgraph(g, ff)
+    if e.random() < 0.25:
+        ff["cites"] = e.sample(["Martini3", "polyply", "PPEs", "M3_sugars", "vermouth", "no_such_entry"], e.randint(1, 3))
     base = histgen.make_op(ff, rg, g, graph_kind="json")
     members.append({"dim": "base", "hashseed": 0, "ops": [base], "observe": 0})
     for hs in g.sample(histgen.PALETTE[1:], g.randint(1, 3)):
@@ -173,8 +184,13 @@ def gen_job(verif_seed, tier, index):
     # history
     for _ in range(g.randint(1, 2)):
         hist = _history(g, ff, rg)
+        if ff.get("cites"):
+            # an earlier call that read the .bib of a shipped library: its entries must not be known to later calls
+            hist.insert(e.randint(0, len(hist)), {"op": "gen_params", "name": "LIBMOL", "files": [], "lib": ["martini3"],
+                                                  "graph": {"kind": "seq", "seq": ["PEO:3"]}, "out": "h.itp",
+                                                  "resgraph": None})
         members.append({"dim": "history", "hashseed": e.choice(histgen.PALETTE), "ops": hist + [base], "observe": len(hist)})
-    return {"index": index, "run_seed": seed, "members": members, "lib": False}
+    return {"index": index, "run_seed": seed, "members": members, "lib": False, "cites": bool(ff.get("cites"))}
 
 
 def random_like(g):
@@ -204,7 +220,10 @@ def _observe(res, k):
         return {"status": r["status"], "error": r.get("error")}
     p = parse_itp_text(r["out_text"])
     secs = {s: sorted((str(g), " ".join(t)) for g, t in v) for s, v in p["sections"].items()}
-    return {"status": "ok", "atoms": p["atoms"], "moltype": p["moleculetype"], "sections": secs, "body": p["body"]}
+    hdr = [ln.strip() for ln in p["header"] if ln.strip(" ;")]
+    k = next((i for i, ln in enumerate(hdr) if "Please cite" in ln), None)
+    return {"status": "ok", "atoms": p["atoms"], "moltype": p["moleculetype"], "sections": secs, "body": p["body"],
+            "cites": sorted(hdr[k + 1:]) if k is not None else None}
 
 
 def run_job(job):
@@ -258,11 +277,21 @@ def run_job(job):
                           "msg": f"[{tag}] multiset of [{sec}] lines differs from the base run: only here {only_a}, "
                                  f"only in base {only_b}"})
             continue
+        if o.get("cites") != base.get("cites"):
+            a, b = o.get("cites") or [], base.get("cites") or []
+            viols.append({"property": PROP, "clause": "header", "seq": 0, "facts": facts,
+                          "msg": f"[{tag}] comment header below the command line differs from the base run: only here "
+                                 f"{[x for x in a if x not in b][:2]}, only in base {[x for x in b if x not in a][:2]}"})
+            continue
         if m["dim"] == "repeat":
             first = _observe(res, m["observe"] - 1)
             if first.get("body") != o.get("body"):
                 viols.append({"property": PROP, "clause": "repeat", "seq": 0, "facts": facts,
                               "msg": "two consecutive identical runs in one process wrote different files (below the header)"})
+    if job.get("cites"):
+        probes["citation_keys_after_library_call"] = 1
+        if base.get("cites"):
+            probes["citation_lines_in_header"] = 1
     if job.get("lib"):
         probes["lib_family"] = 1
     if not job.get("lib"):
